@@ -232,7 +232,7 @@ FIELDS = {
     "duration": {"D": [1, 2, 3], "H": [1, 2], "h": [1, 2], "M": [1, 2], "m": [1, 2], "S": [1, 2], "s": [1, 2], "f": list(range(1, 10)), "F": list(range(1, 10)), "+": [1], "-": [1]},
     "annual": {"M": [1, 2, 3, 4], "d": [1, 2]},
 }
-SEPARATORS = ["-", "/", ":", " ", ".", ";", "T", ",", "'at'", "\\T", "'o''clock'", '"q"', "' '", "(", ")"]
+SEPARATORS = ["-", "/", ":", " ", ".", ";", "'T'", ",", "'at'", "\\T", "'o''clock'", '"q"', "' '", "(", ")"]
 STANDARD = "dDfFgGoOrRsStTmMyYjJilIcn"
 
 
